@@ -40,7 +40,7 @@ import (
 )
 
 var (
-	memfs    = afero.NewMemMapFs()
+	memfs    = hutil.NewStrictFs()
 	initOnce sync.Once
 )
 
